@@ -1,2 +1,4 @@
 import DDProps.Tables
 import DDProps.C02
+import DDProps.C10
+import DDProps.C18
